@@ -7,13 +7,14 @@ import MsqModel.Driver.CmdImm
 import MsqModel.Driver.CmdConv
 import MsqModel.Driver.CmdSpec
 import MsqModel.Driver.CmdEntry2
+import MsqModel.Driver.CmdCost
 /-!
 Driver commands contributed by other modules: add `import MsqModel.Driver.CmdXxx` here and its handler to `handlers`.
 A handler returns `none` for a request that is not its own.
 -/
 namespace Drv
 
-def handlers : List (List String → Option String) := [cmdAnalyze, cmdCache, cmdScan, cmdCount, cmdImm, cmdConv, cmdSpec, cmdEntry2]
+def handlers : List (List String → Option String) := [cmdAnalyze, cmdCache, cmdScan, cmdCount, cmdImm, cmdConv, cmdSpec, cmdEntry2, cmdCost]
 
 def dispatchExt (parts : List String) : String :=
   match handlers.findSome? (fun h => h parts) with
